@@ -25,6 +25,13 @@ CHECKS = {
                  "integer p are exact, fractional p is executed in binary64 (no theorem). All key matrices over {0,1,2} up "
                  "to 3x4 (3x5 thorough) and tie-heavy random ones up to 4x400 are run against the implementation.",
          "note": BASE_NOTE + " Fractional cross-truncation norms are only executed, not proved."},
+ "C20": {"ref": "5/C20", "technique": "Lean 4 proof of the key codec and of the repaired multiply key path + exhaustive codec / pair correspondence",
+         "text": "key_roundtrip, encodeKey_injective, validKey_below (every exponent < 55237), invalidKey_errors and "
+                 "mulKeyPath_exact (both paths of multiply store a product under the key of the exponent sum; the byte "
+                 "formatter alone aliases, mulKey_aliases) are proved for all exponents; the table obligation KEY_OFFSET = 59 "
+                 "is regenerated each run. Every exponent 0..1114200 goes through construct/raw view/reconstruct, all pairs "
+                 "a+b <= 200 (600) through *, random tuples up to 1e5 through the operation chain.",
+         "note": BASE_NOTE},
 }
 CLAIMED = set(CHECKS)
 NOT_APPLICABLE = {f"C{i:02d}": "check under construction in this session (will be claimed once built)"
